@@ -108,27 +108,24 @@ def rsaMetaParse (data : Bytes) : PyRes RotMeta :=
   if data.length < DatConsts.rotMetaRsaMinLen then .error .spsdk
   else .ok (.rsa (rsaMetaItems DatConsts.rotMetaRsaItem data DatConsts.rotMetaRsaCount 0))
 
-/-- `RotMetaFlags.export()`: generated bit function, packed `<L` -/
-def flagsBytes (used cnt : Nat) : PyRes Bytes :=
-  match DatConsts.flagsExport used cnt with
-  -- `struct.error` outside 0 … 2^32-1 (the test is phrased with `/` so that no proof step ever has to
-  -- normalise a subtraction from the literal 2^32)
-  | .ok v => if v < 0 ∨ v.toNat / 4294967296 ≠ 0 then .error .other else .ok (leEnc 4 v.toNat)
-  | .error e => .error e
+/-- `RotMetaFlags.validate()`: `used < cnt ≤ 4` -/
+def flagsValid (used cnt : Nat) : Bool := decide (used < cnt) && decide (cnt ≤ 4)
 
-/-- `RotMetaFlags.parse(data)` for exactly `flagsLen` bytes → `(used, cnt)` after `validate()` -/
+/-- `RotMetaFlags.export()`: marker bit 31, used index in bits 8.., certificate count in bits 4.., packed `<L`
+    (`struct.error` when the word does not fit; unreachable for validated flags).  Hand-written; `Properties/C15.lean`
+    checks it against the tables the generator obtains by running the current class (`gen_flags`). -/
+def flagsBytes (used cnt : Nat) : PyRes Bytes :=
+  let w := 2147483648 ||| (used <<< 8) ||| (cnt <<< 4)
+  if w / 4294967296 ≠ 0 then .error .other else .ok (leEnc 4 w)
+
+/-- `RotMetaFlags.parse(data)` → `(used, cnt)` after `validate()`: exactly `flagsLen` bytes, marker bit set, 4-bit fields -/
 def flagsParse (b : Bytes) : PyRes (Nat × Nat) :=
   if b.length ≠ DatConsts.flagsLen then .error .spsdk else
-  let f : Int := leDec b
-  match DatConsts.flagsMarker f, DatConsts.flagsUsed f, DatConsts.flagsCnt f with
-  | .ok m, .ok u, .ok c =>
-    if !m then .error .spsdk else
-    match DatConsts.flagsValidate u c with
-    | .ok _ => .ok (u.toNat, c.toNat)
-    | .error e => .error e
-  | .error e, _, _ => .error e
-  | _, .error e, _ => .error e
-  | _, _, .error e => .error e
+  let f := leDec b
+  if f / 2147483648 % 2 = 0 then .error .spsdk else
+  let u := f / 256 % 16
+  let c := f / 16 % 16
+  if flagsValid u c then .ok (u, c) else .error .spsdk
 
 /-- `RotMetaEcc.export_crtk_table()` -/
 def crtkTable (items : List Bytes) : Bytes := if items.length > 1 then items.flatten else []
@@ -147,12 +144,9 @@ def rotMetaExport : RotMeta → PyRes Bytes
 /-- SHA-2 width (bits) for an ECC coordinate size: `RotMetaEcc.HASH_SIZES` -/
 def eccHashBits (coord : Nat) : Option Nat := lookup coord DatConsts.eccHashBits
 
-/-- width of one CRTK table item in `RotMetaEcc.parse` for the subclass with `HASH_SIZE = coord`;
-    follows whichever expression the current source uses (`none` = an expression this model does not know) -/
-def eccItemWidth (coord : Nat) : Option Nat :=
-  if DatConsts.eccItemWidthExpr == "cls.HASH_SIZES[cls.HASH_SIZE] // 8" then (eccHashBits coord).map (· / 8)
-  else if DatConsts.eccItemWidthExpr == "cls.HASH_SIZE" then some coord
-  else none
+/-- width of one CRTK table item read by `RotMetaEcc<n>.parse` for the subclass with `HASH_SIZE = coord`: the table the
+    generator obtains by running the current class (`none` = a coordinate size it does not know) -/
+def eccItemWidth (coord : Nat) : Option Nat := lookup coord DatConsts.eccItemWidthTbl
 
 /-- read `n` items of `w` bytes -/
 def rdItems (w : Nat) : Nat → Bytes → PyRes (List Bytes × Bytes)
@@ -391,27 +385,23 @@ def parseDC (rows : List DatRow) (o : SrkOracle) (data : Bytes) : PyRes DC := do
 def hashOfBits : Nat → Option HashAlg
   | 256 => some .sha256 | 384 => some .sha384 | 512 => some .sha512 | _ => none
 
-/-- `RotMetaEcc.key_size` as used in `f"sha{self.key_size}"` (`itemLen = (len(self) - 4) // cnt`) -/
-def eccTableHash (itemLen : Nat) : PyRes HashAlg :=
-  if DatConsts.eccTableHashBitsExpr == "(len(self) - len(self.flags)) // self.flags.cnt_root_cert * 8" then
-    match hashOfBits (itemLen * 8) with | some a => .ok a | none => .error .spsdk   -- from_label: SPSDKKeyError
-  else if DatConsts.eccTableHashBitsExpr == "self.HASH_SIZES[(len(self) - len(self.flags)) // self.flags.cnt_root_cert]" then
-    match eccHashBits itemLen with
-    | none => .error .other                                                          -- KeyError
-    | some b => match hashOfBits b with | some a => .ok a | none => .error .spsdk
-  else .error .other
+/-- entry of a probed hash table: a SHA-2 width, `0` = SPSDK error, `1` = another error -/
+def hashOfCode (v : Nat) : PyRes HashAlg :=
+  if v = 0 then .error .spsdk else if v = 1 then .error .other
+  else match hashOfBits v with | some a => .ok a | none => .error .spsdk
 
-/-- the single-key fallback of `DebugCredentialCertificateEcc.calculate_hash` -/
+/-- hash algorithm of `RotMetaEcc.calculate_hash` for a table of items of `itemLen` bytes (probed table; a width that was not
+    probed is answered `.other`) -/
+def eccTableHash (itemLen : Nat) : PyRes HashAlg :=
+  match lookup itemLen DatConsts.eccTableHashTbl with
+  | some v => hashOfCode v
+  | none => .error .other
+
+/-- the single-key fallback of `DebugCredentialCertificateEcc.calculate_hash` by coordinate size (probed table) -/
 def eccSingleKeyHash (rotPubLen : Nat) : PyRes HashAlg :=
-  let coord := rotPubLen / 2
-  if DatConsts.eccSingleKeyHashBitsExpr == "RotMetaEcc.HASH_SIZES[self.rot_pub.coordinate_size]" then
-    match eccHashBits coord with
-    | none => .error .other
-    | some b => match hashOfBits b with | some a => .ok a | none => .error .spsdk
-  else if DatConsts.eccSingleKeyHashBitsExpr == "self.rot_pub.key_size" then
-    -- key_size is 256 / 384 / 521: "sha521" does not exist (SPSDKKeyError)
-    if coord = 32 then .ok .sha256 else if coord = 48 then .ok .sha384 else .error .spsdk
-  else .error .other
+  match lookup (rotPubLen / 2) DatConsts.eccSingleKeyHashTbl with
+  | some v => hashOfCode v
+  | none => .error .other
 
 /-- `calculate_hash()` of the three classes -/
 def calculateHash (c : CryptoOps) (dc : DC) : PyRes Bytes :=
@@ -449,9 +439,8 @@ def eccMetaOfKeys (c : CryptoOps) (keys : List Bytes) (used : Nat) : PyRes RotMe
     | some bits => match hashOfBits bits with
       | none => .error .spsdk
       | some a =>
-        match DatConsts.flagsValidate used keys.length with
-        | .error e => .error e
-        | .ok _ => .ok (.ecc used keys.length (if keys.length > 1 then keys.map (c.hash a) else []))
+        if flagsValid used keys.length then .ok (.ecc used keys.length (if keys.length > 1 then keys.map (c.hash a) else []))
+        else .error .spsdk
 
 /-! ### what `create_from_yaml_config` refuses -/
 
@@ -466,16 +455,13 @@ def versionOfKey : KeyKind → Option (Nat × Nat)
   | .rsa bits => (lookup bits DatConsts.rsaMinorOfBits).map (fun m => (1, m))
   | .ecc bits => (lookup bits DatConsts.eccMinorOfBits).map (fun m => (2, m))
 
-/-- The `if …: raise SPSDKValueError` tests between the look-ups and the constructor call, as far as the current source has
-    them (`DatConsts.createRefusals`): UUID of exactly 16 bytes, DCK of the type and size of the RoT key, and for the RSA / ECC
-    classes a protocol version equal to the one the RoT key implies. -/
+/-- What `create_from_yaml_config` refuses before anything is built: a UUID that is not 16 bytes long, a DCK of another type / size
+    than the RoT key and, for the RSA / ECC classes, a protocol version other than the one the RoT key implies.  Hand-written;
+    `gen_create_probes` checks it against the accept / refuse table the generator obtains by running the current function. -/
 def createCheck (cls : Cls) (major minor uuidLen : Nat) (rot dck : KeyKind) : PyRes Unit :=
-  if DatConsts.createRefusals.contains "len(«uuid») != 16" && uuidLen != 16 then .error .spsdk
-  else if DatConsts.createRefusals.contains
-      "type(«dck_pub») is not type(«rot_pub») or «dck_pub».key_size != «rot_pub».key_size" && dck != rot then .error .spsdk
-  else if DatConsts.createRefusals.contains
-      "«class» in (DebugCredentialCertificateRsa, DebugCredentialCertificateEcc) and «version» != ProtocolVersion.from_public_key(public_key=«rot_pub»)"
-      && (cls == .rsa || cls == .ecc) then
+  if uuidLen != 16 then .error .spsdk
+  else if dck != rot then .error .spsdk
+  else if cls == .rsa || cls == .ecc then
     match versionOfKey rot with
     | none => .error .other
     | some v => if v != (major, minor) then .error .spsdk else .ok ()
@@ -536,6 +522,13 @@ def dacFieldBytes (a : DAC) : DatFld × DatArg → Bytes
 def dacExport (a : DAC) : PyRes Bytes :=
   if DatConsts.dacExport.all (dacFieldOk a) then .ok (DatConsts.dacExport.flatMap (dacFieldBytes a)) else .error .other
 
+/-- `get_rot_hash_length`: 32 bytes for EdgeLock / "always SHA-256" families and for everything but protocol 2.1 (48) and 2.2 (64).
+    Hand-written; `gen_dac` checks it against the table the generator obtains by running the current function. -/
+def dacRotHashLen (ele sha : Bool) (major minor : Nat) : Nat :=
+  if ele then 32
+  else if major = 2 ∧ sha = false then (if minor = 1 then 48 else if minor = 2 then 64 else 32)
+  else 32
+
 /-- `DebugAuthenticationChallenge.parse(data)` -/
 def dacParse (rows : List DatRow) (data : Bytes) : PyRes DAC := do
   let (bMaj, d) ← rd 2 data
@@ -547,9 +540,9 @@ def dacParse (rows : List DatRow) (data : Bytes) : PyRes DAC := do
   let row ← match latestRow rows fam with | some r => pure r | none => throw PyErr.spsdk
   let maj0 := leDec bMaj
   let min0 := leDec bMin
-  let hl ← DatConsts.dacRotHashLength row.basedOnEle row.sha256Always maj0 min0
+  let hl := dacRotHashLen row.basedOnEle row.sha256Always maj0 min0
   let (major, minor) := if row.dacVersionSwapped then (min0, maj0) else (maj0, min0)
-  let (hash, d) ← rd hl.toNat d
+  let (hash, d) ← rd hl d
   let (bPinned, d) ← rd 4 d
   let (bDefault, d) ← rd 4 d
   let (bVu, d) ← rd 4 d
